@@ -2,8 +2,10 @@
 //! Prints one JSON report on the last line of stdout.
 mod c01;
 mod c03;
+mod c07;
 mod core;
 mod c17;
+mod c20;
 mod c25;
 mod e2e;
 mod frontend;
@@ -11,6 +13,7 @@ mod ty;
 mod c27;
 mod c22;
 mod c23;
+mod c26;
 mod lean;
 mod report;
 mod rng;
@@ -63,11 +66,14 @@ fn main() {
             let out = match prop {
                 "C25" => c25::replay(&f["input"]),
                 "C17" => c17::replay(&f["input"]),
+                "C20" => c20::replay(&f["input"]),
                 "C03" => c03::replay(&f["input"]),
+                "C07" => c07::replay(&f["input"]),
                 "C01" => c01::replay(&f["input"]),
                 "C27" => c27::replay(&f["input"]),
                 "C22" => c22::replay(&f["input"]),
                 "C23" => c23::replay(&f["input"]),
+                "C26" => c26::replay(&f["input"]),
                 _ => "replay not implemented for this property".to_string(),
             };
             println!("input: {}\n{}", f["input"], out);
@@ -93,11 +99,14 @@ fn main() {
     let rep = match prop {
         "C25" => c25::run(&tier, seed, widen),
         "C17" => c17::run(&tier, seed, widen),
+        "C20" => c20::run(&tier, seed, widen),
         "C03" => c03::run(&tier, seed, widen),
+        "C07" => c07::run(&tier, seed, widen),
         "C01" => c01::run(&tier, seed, widen),
         "C27" => c27::run(&tier, seed, widen),
         "C22" => c22::run(&tier, seed, widen),
         "C23" => c23::run(&tier, seed, widen),
+        "C26" => c26::run(&tier, seed, widen),
         _ => {
             eprintln!("unknown property {prop}");
             std::process::exit(2);
